@@ -19,6 +19,7 @@ fn main() {
         "C07" => run_check(c07::C07, &args),
         "C08" => run_check(c08::C08, &args),
         "C09" => run_check(c09::C09, &args),
+        "C10" => run_check(c10::C10, &args),
         "C11" => run_check(c11::C11, &args),
         "C12" => run_check(c12::C12, &args),
         "C13" => run_check(c13::C13, &args),
